@@ -409,14 +409,28 @@ func RunHostileCase(seed uint64, replayDir string, cmdLog *os.File) *CaseResult 
 			unchanged()
 		}
 		// whatever the message was: the state must stay consistent (conservation)
+		// only what the message broke counts: conservation violations that the legal prefix had already produced
+		// (defects judged by C03) are not attributed to the hostile message
 		nv := len(e.Viol)
+		e.lastStep = &Step{N: e.StepN, Op: &Op{Kind: "hostile-pre"}, Pre: pre, Post: pre}
+		e.checkC03(e.lastStep)
+		before := map[string]bool{}
+		for _, v := range e.Viol[nv:] {
+			before[v.Rule+"|"+v.Text] = true
+		}
+		e.Viol = e.Viol[:nv]
 		st := &Step{N: e.StepN, Op: &Op{Kind: "hostile"}, Pre: pre, Post: post, Evs: evs}
 		e.lastStep = st
 		e.checkC03(st)
-		for j := nv; j < len(e.Viol); j++ {
-			v := e.Viol[j]
-			e.Viol[j] = Violation{Prop: "C13", Rule: "state-corrupted", Signature: "C13/state-corrupted/" + msg.Class + "/" + v.Rule, Text: v.Text + "; after message: " + string(b), Step: e.StepN}
+		kept := e.Viol[:nv]
+		for _, v := range e.Viol[nv:] {
+			if before[v.Rule+"|"+v.Text] {
+				e.obs("c13.conservation_broken_before_message", 1)
+				continue
+			}
+			kept = append(kept, Violation{Prop: "C13", Rule: "state-corrupted", Signature: "C13/state-corrupted/" + msg.Class + "/" + v.Rule, Text: v.Text + "; after message: " + string(b), Step: e.StepN})
 		}
+		e.Viol = kept
 		if len(e.Viol) > 0 {
 			if os.Getenv("VERIF_VERBOSE") != "" {
 				jb, _ := json.MarshalIndent(post.Apps, "", " ")
